@@ -165,7 +165,7 @@ def ruleForgetOverwritten (cn : CNode) (memOut : AMap MemLoc) : AMap MemLoc :=
   let ov1 := if n.callsTo.isSome then ov0 ||| returnAddrSet else ov0
   let ov := match ecallSignature cn with
     | some (_, rets) => ov1 ||| rets
-    | none => ov1
+    | none => if n.isEcall && (knownEcall cn).isNone then ov1 ||| RegSet.ofList [10, 11] else ov1
   memOut.filter fun p => match p.2 with
     | .rs r _ => !RegSet.mem ov r
     | _ => true
@@ -194,7 +194,9 @@ def availNode (g : Cfg) (visited : List Nat) (i : Nat) : Cfg × Bool × Bool :=
     let cnIn : CNode := { cn with regIn := inReg }
     let out1 := match ecallSignature cnIn with
       | some (_, rets) => (RegSet.toList rets).foldl AMap.erase out1
-      | none => out1
+      | none =>
+        -- unknown call number: every environment call returns in a0/a1
+        if n.isEcall && (knownEcall cnIn).isNone then [10, 11].foldl AMap.erase out1 else out1
     let out2 := match n.genRegValue with
       | some (r, v) => AMap.insert out1 r v
       | none => out1
